@@ -162,6 +162,9 @@ def histories(spec, cat, gold, model, tier):
             prog.append(Ev(idx[rel], M + "Pr"))
             prog.append(Ev(idx[rel], M + "Pp"))
         out.append(("breakdown", start() + mid + prog + stop(), ("-b",)))
+        # ... and with events after the last change of any breakdown row (bursts of the last thread, which is over)
+        s_last = idx[rels[-1][0]]
+        out.append(("breakdown-quiet-tail", start() + mid + prog + stop() + [Ev(s_last, "OB."), Ev(s_last, "OB.")], ("-b",)))
     if model == "ovni":
         s0 = idx[rels[0][0]]
         out.append(("flush", start() + [Ev(s0, "OF["), Ev(s0, "OF]")] + stop(), ()))
